@@ -339,13 +339,13 @@ func isPlainNum(s string) bool {
 // ---------------------------------------------------------------- Gen
 
 type acctRec struct {
-	addr            []byte
-	nonce, balance  *big.Int
-	codeHash        ecom.Hash
-	slots           map[ecom.Hash][]byte // slot -> stored value (untrimmed 32 bytes or arbitrary)
-	storageTrie     *trie.Trie
-	storageRoot     ecom.Hash
-	acctRlp         []byte
+	addr           []byte
+	nonce, balance *big.Int
+	codeHash       ecom.Hash
+	slots          map[ecom.Hash][]byte // slot -> stored value (untrimmed 32 bytes or arbitrary)
+	storageTrie    *trie.Trie
+	storageRoot    ecom.Hash
+	acctRlp        []byte
 }
 
 type worldState struct {
@@ -414,7 +414,7 @@ func (f *evm) Gen(r *hx.Run) {
 		"(2..5 accounts, the cross-chain manager contract with 1..6 deposit slots; built with go-ethereum's trie and proved with trie.Prove); " +
 		"per chain ~25 deposits: valid ones at every height x BlocksToWait around the confirmation boundary (incl. 0, 2^32, 2^32+1, 2^64-1), and single " +
 		"mutations: truncated / re-ordered / foreign node lists, other account, other slot, other value, absence proofs, wrong account fields, " +
-		"non-canonical block, future height, zero or two storage proofs, malformed JSON, irregular hex strings, truncated message; " +
+		"non-canonical block, future height, zero or two storage proofs, malformed JSON, irregular hex strings, truncated message, stored values that are only the tail / head of the hash or 33 bytes, a private storage trie under a genuine account proof; every second chain is reorganised half way (the blocks from a random height on are replaced) and deposits against the replaced and the new blocks of the same heights follow; " +
 		"distinct non-trivial = distinct (mutation, verdict, confirmation class)")
 	g := r.Rng
 	chains := r.Pick(160, 6000)
@@ -424,6 +424,7 @@ func (f *evm) Gen(r *hx.Run) {
 		setNetwork(net)
 		ccmc := g.Bytes(20)
 		// world states per block
+		slotKind := map[ecom.Hash]string{} // slot -> what its stored value is, when it is not the full hash
 		mkWorld := func() (*worldState, *acctRec, map[ecom.Hash][]byte) {
 			w := &worldState{}
 			msgs := map[ecom.Hash][]byte{}
@@ -441,6 +442,30 @@ func (f *evm) Gen(r *hx.Run) {
 				m = m[:1+g.Intn(len(m)-1)]
 				slot := ecom.BytesToHash(g.Bytes(32))
 				cc.slots[slot] = crypto.Keccak256(m)
+				msgs[slot] = m
+			}
+			if g.Chance(1, 2) {
+				// slots whose value is only a PART of keccak(message): the low-order bytes (what a check that compares just
+				// the tail, or pads on the wrong side, would accept), the high-order bytes, or 33 bytes ending in the hash
+				m := randMsg(g, false)
+				hsh := crypto.Keccak256(m)
+				slot := ecom.BytesToHash(g.Bytes(32))
+				switch g.Intn(4) {
+				case 0:
+					k := []int{31, 20, 8, 1}[g.Intn(4)]
+					cc.slots[slot] = append([]byte{}, hsh[32-k:]...)
+					slotKind[slot] = "value-is-tail-of-hash"
+				case 1:
+					k := []int{31, 20, 8}[g.Intn(3)]
+					cc.slots[slot] = append([]byte{}, hsh[:k]...)
+					slotKind[slot] = "value-is-head-of-hash"
+				case 2:
+					cc.slots[slot] = append([]byte{1}, hsh...)
+					slotKind[slot] = "value-is-33-bytes-ending-in-hash"
+				default:
+					cc.slots[slot] = []byte{}
+					slotKind[slot] = "value-is-empty"
+				}
 				msgs[slot] = m
 			}
 			w.accts = append(w.accts, cc)
@@ -493,180 +518,239 @@ func (f *evm) Gen(r *hx.Run) {
 			r.Do("sync " + powFields(h))
 		}
 		cur := base + uint64(n)
-		deposits := r.Pick(25, 40)
-		for k := 0; k < deposits; k++ {
-			bi := g.Intn(len(blocks))
-			b := blocks[bi]
-			mut := "none"
-			if sideBlk != nil && g.Chance(1, 8) {
-				b = sideBlk
-				mut = "non-canonical-block"
-			}
-			height := b.h.Number.Uint64()
-			// a slot of the contract
-			var slot ecom.Hash
-			for s := range b.cc.slots {
-				slot = s
-				if g.Bool() {
-					break
+		var sides []*blk
+		if sideBlk != nil {
+			sides = append(sides, sideBlk)
+		}
+		phase := "before-reorg"
+		runDeposits := func(deposits int) {
+			for k := 0; k < deposits; k++ {
+				bi := g.Intn(len(blocks))
+				b := blocks[bi]
+				mut := "none"
+				if len(sides) > 0 && g.Chance(1, 6) {
+					b = sides[g.Intn(len(sides))]
+					mut = "non-canonical-block"
+					if b.canon {
+						mut = "block-reorganised-out"
+					}
 				}
-			}
-			extra := b.msgs[slot]
-			conf := cur - height + 1
-			btws := []uint64{1, conf, conf, conf + 1, conf - 1, 2, 12, 0, 1 << 32, 1<<32 + 1, 1<<32 + conf, 1<<64 - 1}
-			d := &depositOp{btw: btws[g.Intn(len(btws))], height: uint32(height), ccmc: ccmc, jsonOK: true, extra: extra}
-			if d.btw == 0 && !g.Chance(1, 3) {
-				d.btw = conf
-			}
-			d.p = ccmeth.ETHProof{Address: hex0x(ccmc), Balance: numHex(b.cc.balance), CodeHash: hex0x(b.cc.codeHash[:]), Nonce: numHex(b.cc.nonce),
-				StorageHash: hex0x(b.cc.storageRoot[:]), AccountProof: prove(b.w.trie, crypto.Keccak256(ccmc)),
-				StorageProofs: []ccmeth.StorageProof{{Key: hex0x(slot[:]), Proof: prove(b.cc.storageTrie, crypto.Keccak256(slot[:]))}}}
-			if mut == "none" && g.Chance(3, 5) {
-				other := b.w.accts[1+g.Intn(len(b.w.accts)-1)]
-				switch g.Intn(23) {
-				case 0:
-					d.p.AccountProof = d.p.AccountProof[:len(d.p.AccountProof)-1]
-					mut = "account-proof-truncated-tail"
-				case 1:
-					d.p.AccountProof = d.p.AccountProof[1:]
-					mut = "account-proof-truncated-head"
-				case 2:
-					sp := &d.p.StorageProofs[0]
-					sp.Proof = sp.Proof[:len(sp.Proof)-1]
-					mut = "storage-proof-truncated-tail"
-				case 3:
-					// re-ordered node lists verify all the same (a node set is keyed by hash)
-					ap := d.p.AccountProof
-					for i, j := 0, len(ap)-1; i < j; i, j = i+1, j-1 {
-						ap[i], ap[j] = ap[j], ap[i]
+				height := b.h.Number.Uint64()
+				// a slot of the contract
+				var slot ecom.Hash
+				for s := range b.cc.slots {
+					slot = s
+					if g.Bool() {
+						break
 					}
-					mut = "account-proof-reversed"
-				case 4:
-					d.p.AccountProof = prove(b.w.trie, crypto.Keccak256(other.addr))
-					mut = "account-proof-of-other-account"
-				case 5:
-					d.p.Address = hex0x(other.addr)
-					d.p.AccountProof = prove(b.w.trie, crypto.Keccak256(other.addr))
-					d.p.Balance, d.p.Nonce, d.p.CodeHash, d.p.StorageHash = numHex(other.balance), numHex(other.nonce), hex0x(other.codeHash[:]), hex0x(other.storageRoot[:])
-					mut = "whole-proof-for-other-account"
-				case 6:
-					var s2 ecom.Hash
-					for s := range b.cc.slots {
-						if s != slot {
-							s2 = s
-						}
-					}
-					if (s2 != ecom.Hash{}) {
-						d.p.StorageProofs[0].Proof = prove(b.cc.storageTrie, crypto.Keccak256(s2[:]))
-						mut = "storage-proof-of-other-slot"
-					}
-				case 7:
-					var s2 ecom.Hash
-					for s := range b.cc.slots {
-						if s != slot {
-							s2 = s
-						}
-					}
-					if (s2 != ecom.Hash{}) {
-						d.p.StorageProofs[0] = ccmeth.StorageProof{Key: hex0x(s2[:]), Proof: prove(b.cc.storageTrie, crypto.Keccak256(s2[:]))}
-						mut = "other-slot-with-this-message"
-					}
-				case 8:
-					d.extra = randMsg(g, false)
-					mut = "other-message"
-				case 9:
-					absent := ecom.BytesToHash(g.Bytes(32))
-					d.p.StorageProofs[0] = ccmeth.StorageProof{Key: hex0x(absent[:]), Proof: prove(b.cc.storageTrie, crypto.Keccak256(absent[:]))}
-					mut = "absence-proof-storage"
-				case 10:
-					d.p.Nonce = numHex(new(big.Int).Add(b.cc.nonce, big.NewInt(1)))
-					mut = "nonce+1"
-				case 11:
-					d.p.Balance = numHex(new(big.Int).Add(b.cc.balance, big.NewInt(1)))
-					mut = "balance+1"
-				case 12:
-					d.p.CodeHash = hex0x(g.Bytes(32))
-					mut = "other-code-hash"
-				case 13:
-					d.height = uint32(cur + 1 + uint64(g.Intn(3)))
-					mut = "future-height"
-				case 14:
-					d.p.StorageProofs = append(d.p.StorageProofs, d.p.StorageProofs[0])
-					mut = "two-storage-proofs"
-				case 15:
-					d.p.StorageProofs = nil
-					mut = "no-storage-proof"
-				case 16:
-					d.jsonOK = false
-					mut = "malformed-json"
-				case 17:
-					// irregular spellings the code's lenient helpers accept or reject
-					switch g.Intn(6) {
+				}
+				extra := b.msgs[slot]
+				if kind, ok := slotKind[slot]; ok && mut == "none" {
+					mut = kind
+				}
+				conf := cur - height + 1
+				btws := []uint64{1, conf, conf, conf + 1, conf - 1, 2, 12, 0, 1 << 32, 1<<32 + 1, 1<<32 + conf, 1<<64 - 1}
+				d := &depositOp{btw: btws[g.Intn(len(btws))], height: uint32(height), ccmc: ccmc, jsonOK: true, extra: extra}
+				if d.btw == 0 && !g.Chance(1, 3) {
+					d.btw = conf
+				}
+				d.p = ccmeth.ETHProof{Address: hex0x(ccmc), Balance: numHex(b.cc.balance), CodeHash: hex0x(b.cc.codeHash[:]), Nonce: numHex(b.cc.nonce),
+					StorageHash: hex0x(b.cc.storageRoot[:]), AccountProof: prove(b.w.trie, crypto.Keccak256(ccmc)),
+					StorageProofs: []ccmeth.StorageProof{{Key: hex0x(slot[:]), Proof: prove(b.cc.storageTrie, crypto.Keccak256(slot[:]))}}}
+				if mut == "none" && g.Chance(3, 5) {
+					other := b.w.accts[1+g.Intn(len(b.w.accts)-1)]
+					switch g.Intn(25) {
 					case 0:
-						d.p.Address = strings.ToUpper(d.p.Address)
+						d.p.AccountProof = d.p.AccountProof[:len(d.p.AccountProof)-1]
+						mut = "account-proof-truncated-tail"
 					case 1:
-						d.p.Address = strings.TrimPrefix(d.p.Address, "0x")
+						d.p.AccountProof = d.p.AccountProof[1:]
+						mut = "account-proof-truncated-head"
 					case 2:
-						d.p.Nonce = ""
+						sp := &d.p.StorageProofs[0]
+						sp.Proof = sp.Proof[:len(sp.Proof)-1]
+						mut = "storage-proof-truncated-tail"
 					case 3:
-						d.p.Balance = "0x-1"
+						// re-ordered node lists verify all the same (a node set is keyed by hash)
+						ap := d.p.AccountProof
+						for i, j := 0, len(ap)-1; i < j; i, j = i+1, j-1 {
+							ap[i], ap[j] = ap[j], ap[i]
+						}
+						mut = "account-proof-reversed"
 					case 4:
-						d.p.StorageHash = d.p.StorageHash + "ff"
+						d.p.AccountProof = prove(b.w.trie, crypto.Keccak256(other.addr))
+						mut = "account-proof-of-other-account"
 					case 5:
-						d.p.Nonce = "0xzz"
+						d.p.Address = hex0x(other.addr)
+						d.p.AccountProof = prove(b.w.trie, crypto.Keccak256(other.addr))
+						d.p.Balance, d.p.Nonce, d.p.CodeHash, d.p.StorageHash = numHex(other.balance), numHex(other.nonce), hex0x(other.codeHash[:]), hex0x(other.storageRoot[:])
+						mut = "whole-proof-for-other-account"
+					case 6:
+						var s2 ecom.Hash
+						for s := range b.cc.slots {
+							if s != slot {
+								s2 = s
+							}
+						}
+						if (s2 != ecom.Hash{}) {
+							d.p.StorageProofs[0].Proof = prove(b.cc.storageTrie, crypto.Keccak256(s2[:]))
+							mut = "storage-proof-of-other-slot"
+						}
+					case 7:
+						var s2 ecom.Hash
+						for s := range b.cc.slots {
+							if s != slot {
+								s2 = s
+							}
+						}
+						if (s2 != ecom.Hash{}) {
+							d.p.StorageProofs[0] = ccmeth.StorageProof{Key: hex0x(s2[:]), Proof: prove(b.cc.storageTrie, crypto.Keccak256(s2[:]))}
+							mut = "other-slot-with-this-message"
+						}
+					case 8:
+						d.extra = randMsg(g, false)
+						mut = "other-message"
+					case 9:
+						absent := ecom.BytesToHash(g.Bytes(32))
+						d.p.StorageProofs[0] = ccmeth.StorageProof{Key: hex0x(absent[:]), Proof: prove(b.cc.storageTrie, crypto.Keccak256(absent[:]))}
+						mut = "absence-proof-storage"
+					case 10:
+						d.p.Nonce = numHex(new(big.Int).Add(b.cc.nonce, big.NewInt(1)))
+						mut = "nonce+1"
+					case 11:
+						d.p.Balance = numHex(new(big.Int).Add(b.cc.balance, big.NewInt(1)))
+						mut = "balance+1"
+					case 12:
+						d.p.CodeHash = hex0x(g.Bytes(32))
+						mut = "other-code-hash"
+					case 13:
+						d.height = uint32(cur + 1 + uint64(g.Intn(3)))
+						mut = "future-height"
+					case 14:
+						d.p.StorageProofs = append(d.p.StorageProofs, d.p.StorageProofs[0])
+						mut = "two-storage-proofs"
+					case 15:
+						d.p.StorageProofs = nil
+						mut = "no-storage-proof"
+					case 16:
+						d.jsonOK = false
+						mut = "malformed-json"
+					case 17:
+						// irregular spellings the code's lenient helpers accept or reject
+						switch g.Intn(6) {
+						case 0:
+							d.p.Address = strings.ToUpper(d.p.Address)
+						case 1:
+							d.p.Address = strings.TrimPrefix(d.p.Address, "0x")
+						case 2:
+							d.p.Nonce = ""
+						case 3:
+							d.p.Balance = "0x-1"
+						case 4:
+							d.p.StorageHash = d.p.StorageHash + "ff"
+						case 5:
+							d.p.Nonce = "0xzz"
+						}
+						mut = "irregular-strings"
+					case 18:
+						if len(d.extra) > 3 {
+							d.extra = d.extra[:g.Intn(len(d.extra))]
+						}
+						mut = "message-truncated"
+					case 19:
+						d.ccmc = g.Bytes(20)
+						mut = "other-registered-contract"
+					case 20:
+						// the proof is taken from another block's state
+						ob := blocks[g.Intn(len(blocks))]
+						d.p.AccountProof = prove(ob.w.trie, crypto.Keccak256(ccmc))
+						mut = "account-proof-from-other-block"
+					case 21:
+						d.p.StorageHash = hex0x(g.Bytes(32))
+						mut = "other-storage-hash"
+					case 22:
+						d.height = uint32(base - 1 - uint64(g.Intn(3)))
+						d.btw = 1
+						mut = "below-trust-root"
+					case 23, 24:
+						// genuine account proof, nonce, balance and code hash - but the storage hash is the root of a PRIVATE trie
+						// that holds the hash of a forged message under the slot (only the account-record comparison, which
+						// includes the storage root, stands between this and acceptance)
+						forged := randMsg(g, false)
+						priv := newTrie()
+						for s2, v := range b.cc.slots {
+							if s2 != slot {
+								enc, _ := gethrlp.EncodeToBytes(bytes.TrimLeft(v, "\x00"))
+								priv.Update(crypto.Keccak256(s2[:]), enc)
+							}
+						}
+						enc, _ := gethrlp.EncodeToBytes(bytes.TrimLeft(crypto.Keccak256(forged), "\x00"))
+						priv.Update(crypto.Keccak256(slot[:]), enc)
+						pr := priv.Hash()
+						d.p.StorageHash = hex0x(pr[:])
+						d.p.StorageProofs[0].Proof = prove(priv, crypto.Keccak256(slot[:]))
+						d.extra = forged
+						mut = "private-storage-trie"
 					}
-					mut = "irregular-strings"
-				case 18:
-					if len(d.extra) > 3 {
-						d.extra = d.extra[:g.Intn(len(d.extra))]
+				}
+				var roots []ecom.Hash
+				for _, x := range blocks {
+					if x.h.Number.Uint64() == uint64(d.height) {
+						roots = append(roots, x.h.Root)
 					}
-					mut = "message-truncated"
-				case 19:
-					d.ccmc = g.Bytes(20)
-					mut = "other-registered-contract"
-				case 20:
-					// the proof is taken from another block's state
-					ob := blocks[g.Intn(len(blocks))]
-					d.p.AccountProof = prove(ob.w.trie, crypto.Keccak256(ccmc))
-					mut = "account-proof-from-other-block"
-				case 21:
-					d.p.StorageHash = hex0x(g.Bytes(32))
-					mut = "other-storage-hash"
-				case 22:
-					d.height = uint32(base - 1 - uint64(g.Intn(3)))
-					d.btw = 1
-					mut = "below-trust-root"
 				}
-			}
-			var roots []ecom.Hash
-			for _, x := range blocks {
-				if x.h.Number.Uint64() == uint64(d.height) {
-					roots = append(roots, x.h.Root)
+				for _, x := range sides {
+					if x.h.Number.Uint64() == uint64(d.height) {
+						roots = append(roots, x.h.Root)
+					}
 				}
-			}
-			if sideBlk != nil && sideBlk.h.Number.Uint64() == uint64(d.height) {
-				roots = append(roots, sideBlk.h.Root)
-			}
-			d.ktab, d.vptab = d.tables(roots)
-			res := r.Do(d.line())
-			confClass := "enough"
-			if d.btw == 0 || d.btw > 1<<32 {
-				confClass = "corner"
-			} else if conf < d.btw {
-				confClass = "short"
-			} else if conf == d.btw {
-				confClass = "exact"
-			}
-			verdict := strings.SplitN(res, " ", 2)[0]
-			if strings.HasPrefix(res, "ok:") {
-				verdict = "ok"
-			}
-			r.Nontrivial(fmt.Sprintf("%s/%s/%s", mut, verdict, confClass))
-			r.Hist("evm.verdict." + verdict)
-			r.Hist("evm.mutation." + mut)
-			if c%40 == 0 && k < 2 {
-				r.Sample(map[string]interface{}{"mutation": mut, "height": d.height, "current": cur, "blocksToWait": d.btw, "verdict": verdict})
+				d.ktab, d.vptab = d.tables(roots)
+				res := r.Do(d.line())
+				confClass := "enough"
+				if d.btw == 0 || d.btw > 1<<32 {
+					confClass = "corner"
+				} else if conf < d.btw {
+					confClass = "short"
+				} else if conf == d.btw {
+					confClass = "exact"
+				}
+				verdict := strings.SplitN(res, " ", 2)[0]
+				if strings.HasPrefix(res, "ok:") {
+					verdict = "ok"
+				}
+				r.Nontrivial(fmt.Sprintf("%s/%s/%s/%s", mut, verdict, confClass, phase))
+				r.Hist("evm.verdict." + verdict)
+				r.Hist("evm.mutation." + mut)
+				if mut == "none" || mut == "block-reorganised-out" {
+					r.Hist("evm.phase." + phase + "." + mut + "." + verdict)
+				}
+				if c%40 == 0 && k < 2 {
+					r.Sample(map[string]interface{}{"mutation": mut, "height": d.height, "current": cur, "blocksToWait": d.btw, "verdict": verdict, "phase": phase})
+				}
 			}
 		}
+		total := r.Pick(25, 40)
+		if c%2 == 1 || n < 2 {
+			runDeposits(total)
+			continue
+		}
+		// deposits, then a reorganisation that replaces the blocks from height base+at on (the new branch is one block
+		// longer, hence heavier), then deposits again: proofs against the replaced blocks must now fail, proofs against
+		// the new canonical blocks of the same heights must pass
+		runDeposits(total / 2)
+		at := 1 + g.Intn(n-1)
+		newBlocks := append([]*blk{}, blocks[:at]...)
+		for i := at; i <= n+1; i++ {
+			w, cc, ms := mkWorld()
+			h := powChild(g, newBlocks[len(newBlocks)-1].h, uint32(c*100+60+i), 1)
+			h.Root = w.root
+			newBlocks = append(newBlocks, &blk{h, w, cc, ms, true})
+			r.Do("sync " + powFields(h))
+		}
+		sides = append(sides, blocks[at:]...)
+		blocks = newBlocks
+		cur = base + uint64(n) + 1
+		phase = "after-reorg"
+		runDeposits(total - total/2)
 	}
 }
